@@ -323,6 +323,9 @@ pub struct Run<'c> {
     pub last_shape: Option<fileck::BucketShape>,
     pub last_file_len: u64,
     pub last_was_err: bool,
+    /// C11: a failing commit is an expected outcome, recorded here instead of reported
+    pub tolerate_commit_err: bool,
+    pub last_commit_err: Option<String>,
 }
 
 impl<'c> Run<'c> {
@@ -336,6 +339,8 @@ impl<'c> Run<'c> {
             last_shape: None,
             last_file_len: 0,
             last_was_err: false,
+            tolerate_commit_err: false,
+            last_commit_err: None,
         }
     }
 }
@@ -1241,6 +1246,12 @@ fn exec_tx_inner(run: &mut Run, db: &DB, path: &Path, script: &TxScript, committ
             if nested_then_ancestor {
                 run.out.stats.nested_then_ancestor_delete_txs += 1;
             }
+        }
+        Some(Err(e)) if run.tolerate_commit_err => {
+            run.record("commit", "err-tolerated");
+            run.last_commit_err = Some(e.to_string());
+            *committed_out = committed;
+            return;
         }
         Some(Err(e)) => {
             run.record("commit", "err");
